@@ -32,9 +32,14 @@ pub fn has_any_self_by_value<'s>(
     mut signatures: impl Iterator<Item = &'s syn::Signature>,
 ) -> TakesSelfByValue {
     TakesSelfByValue(signatures.any(|sig| match sig.inputs.first() {
-        Some(syn::FnArg::Receiver(receiver)) => receiver.reference.is_none(),
+        Some(syn::FnArg::Receiver(receiver)) => receiver_is_by_value(receiver),
         _ => false,
     }))
+}
+
+/// `self` (or `self: Self`), as opposed to `&self` or its typed spelling `self: &Self`
+pub fn receiver_is_by_value(receiver: &syn::Receiver) -> bool {
+    receiver.reference.is_none() && !matches!(receiver.ty.as_ref(), syn::Type::Reference(_))
 }
 
 #[derive(Clone)]
